@@ -162,6 +162,12 @@ void dump_row_slice(tmatrix<N, M, int>& m) {
     for (us k = 0; k != K; ++k)
       std::cout << "row " << M << " " << I << " " << J << " ; " << k << " = "
                 << off(&v[k], m.data()) << "\n";
+    // the `const` overload is a separate function in tmatrix.ixx
+    const auto& cm = m;
+    auto cv = cm.template row_view<I, J, K>();
+    for (us k = 0; k != K; ++k)
+      std::cout << "crow " << M << " " << I << " " << J << " ; " << k << " = "
+                << off(&cv[k], cm.data()) << "\n";
   }
 }
 template <us N, us M, us I, us J, us K>
@@ -171,6 +177,11 @@ void dump_col_slice(tmatrix<N, M, int>& m) {
     for (us k = 0; k != K; ++k)
       std::cout << "col " << M << " " << I << " " << J << " ; " << k << " = "
                 << off(&v[k], m.data()) << "\n";
+    const auto& cm = m;
+    auto cv = cm.template column_view<I, J, K>();
+    for (us k = 0; k != K; ++k)
+      std::cout << "ccol " << M << " " << I << " " << J << " ; " << k << " = "
+                << off(&cv[k], cm.data()) << "\n";
   }
 }
 template <us N, us M, us I, us J, us R, us C>
@@ -181,6 +192,12 @@ void dump_sub(tmatrix<N, M, int>& m) {
       for (us c = 0; c != C; ++c)
         std::cout << "sub " << M << " " << I << " " << J << " ; " << r << " " << c
                   << " = " << off(&v(r, c), m.data()) << "\n";
+    const auto& cm = m;
+    auto cv = cm.template submatrix_view<I, J, R, C>();
+    for (us r = 0; r != R; ++r)
+      for (us c = 0; c != C; ++c)
+        std::cout << "csub " << M << " " << I << " " << J << " ; " << r << " " << c
+                  << " = " << off(&cv(r, c), cm.data()) << "\n";
   }
 }
 template <us N, us M, us I, us J, us R, us... C>
@@ -343,6 +360,78 @@ void dump_coalesced() {
   }
 }
 
+// ---- views on a derivative block of a tiny matrix (tmatrix.ixx map_derivative / map_derivative_strided): the
+// block of d(function component r)/d(variable component c) placed at (I, J) is the matrix cell (I + r, J + c)
+template <typename D>
+const double* dcell(D&& d, const us r, const us c, const bool fs, const bool vs) {
+  if constexpr (std::is_arithmetic_v<std::remove_cvref_t<D>>) {
+    return &d;
+  } else if constexpr (std::remove_cvref_t<D>::indexing_policy::arity == 1) {
+    return &d(fs ? c : r);
+  } else {
+    return &d(r, c);
+  }
+}
+template <us N, us M, us I, us J, typename F, typename V>
+void dump_derivative_views() {
+  constexpr us R = tfel::math::internals::getStridedDerivativeSubBlockExtent<F>();
+  constexpr us C = tfel::math::internals::getStridedDerivativeSubBlockExtent<V>();
+  constexpr bool fs = isScalar<F>(), vs = isScalar<V>();
+  tmatrix<N, M, double> m(0);
+  auto&& d1 = map_derivative<I, J, F, V>(m);
+  auto&& d2 = map_derivative<F, V>(m, I, J);
+  for (us r = 0; r != R; ++r)
+    for (us c = 0; c != C; ++c) {
+      std::cout << "dsub " << M << " " << I << " " << J << " ; " << r << " " << c << " = "
+                << off(dcell(d1, r, c, fs, vs), static_cast<const double*>(m.data())) << "\n";
+      std::cout << "dsub " << M << " " << I << " " << J << " ; " << r << " " << c << " = "
+                << off(dcell(d2, r, c, fs, vs), static_cast<const double*>(m.data())) << "\n";
+    }
+  double buf[256] = {};
+  for (std::size_t stride = 1; stride <= 3; stride += 2) {
+    auto&& s1 = map_derivative_strided<I, J, F, V, N, M>(buf, stride);
+    auto&& s2 = map_derivative_strided<F, V, N, M>(buf, stride, I, J);
+    for (us r = 0; r != R; ++r)
+      for (us c = 0; c != C; ++c) {
+        std::cout << "dsco " << stride << " M " << N << " " << M << " " << M << " ; " << I + r << " "
+                  << J + c << " = " << off(dcell(s1, r, c, fs, vs), static_cast<const double*>(buf)) << "\n";
+        std::cout << "dsco " << stride << " M " << N << " " << M << " " << M << " ; " << I + r << " "
+                  << J + c << " = " << off(dcell(s2, r, c, fs, vs), static_cast<const double*>(buf)) << "\n";
+      }
+  }
+}
+//! compile time / run time compatibility of two indexing policies: equal arity and equal extents
+template <typename P1, typename P2>
+void dump_compat() {
+  std::cout << "compat " << Desc<P1>::str() << " | " << Desc<P2>::str() << " = "
+            << (checkIndexingPoliciesCompatiblity<P1, P2>() ? 1 : 0) << "\n";
+}
+//! const access and array-index access of the (strided) coalesced views
+template <typename T, typename P>
+void dump_coalesced_const_access(const std::size_t stride) {
+  int buf[128] = {};
+  auto v = map_strided<T>(&buf[1], static_cast<typename P::size_type>(stride));
+  auto cv = map_strided<const T>(static_cast<const int*>(&buf[1]), static_cast<typename P::size_type>(stride));
+  const auto& v2 = v;
+  constexpr P p{};
+  using size_type = typename decltype(v)::size_type;
+  if constexpr (P::arity == 1) {
+    for (us k = 0; k != p.size(0); ++k) {
+      const std::array<size_type, 1> a{k};
+      for (const long o : {off(&v2[k], &buf[1]), off(&v2(k), &buf[1]), off(&v(a), &buf[1]), off(&v2(a), &buf[1]),
+                           off(&cv[k], &buf[1]), off(&cv(k), &buf[1])})
+        std::cout << "csco " << stride << " " << Desc<P>::str() << " ; " << k << " = " << o << "\n";
+    }
+  } else {
+    for (us r = 0; r != p.size(0); ++r)
+      for (us c = 0; c != p.size(1); ++c) {
+        const std::array<size_type, 2> a{r, c};
+        for (const long o : {off(&v2(r, c), &buf[1]), off(&v(a), &buf[1]), off(&v2(a), &buf[1]), off(&cv(r, c), &buf[1])})
+          std::cout << "csco " << stride << " " << Desc<P>::str() << " ; " << r << " " << c << " = " << o << "\n";
+      }
+  }
+}
+
 #ifndef C17_PART
 #define C17_PART 0
 #endif
@@ -405,6 +494,15 @@ int main() {
   dump_tmatrix_views<3, 2>();
   dump_tmatrix_views<3, 3>();
   dump_tmatrix_views<4, 4>();
+  // derivative views: the four scalar/tensor specialisations, static and run time positions, plain and strided
+  dump_derivative_views<4, 5, 1, 2, tvector<2, double>, tvector<3, double>>();
+  dump_derivative_views<4, 5, 1, 3, stensor<1u, double>, tvector<2, double>>();
+  dump_derivative_views<4, 5, 3, 1, double, tvector<3, double>>();
+  dump_derivative_views<4, 5, 0, 2, double, stensor<1u, double>>();
+  dump_derivative_views<4, 5, 1, 4, stensor<1u, double>, double>();
+  dump_derivative_views<5, 4, 2, 1, tvector<3, double>, double>();
+  dump_derivative_views<4, 5, 2, 4, double, double>();
+  dump_derivative_views<3, 3, 2, 1, double, double>();
 #endif
 #if C17_PART == 0 || C17_PART == 3
   // strided views on raw memory
@@ -427,6 +525,52 @@ int main() {
     dump_strided_coalesced<stensor<2, int>, typename stensor<2, int>::indexing_policy>(s);
     dump_strided_coalesced<stensor<3, int>, typename stensor<3, int>::indexing_policy>(s);
     dump_strided_coalesced<tmatrix<2, 3, int>, typename tmatrix<2, 3, int>::indexing_policy>(s);
+  }
+  for (std::size_t s = 1; s <= 4; ++s) {
+    dump_coalesced_const_access<tvector<3, int>, typename tvector<3, int>::indexing_policy>(s);
+    dump_coalesced_const_access<tmatrix<2, 3, int>, typename tmatrix<2, 3, int>::indexing_policy>(s);
+  }
+  {
+    // compatibility of indexing policies (static_asserts of View, isAssignableTo between views)
+    using V2 = FixedSizeVectorIndexingPolicy<us, 2>;
+    using V3 = FixedSizeVectorIndexingPolicy<us, 3>;
+    using V3s = FixedSizeVectorIndexingPolicy<us, 3, 2>;
+    using M23 = FixedSizeRowMajorMatrixIndexingPolicy<us, 2, 3>;
+    using M32 = FixedSizeRowMajorMatrixIndexingPolicy<us, 3, 2>;
+    using M23s = FixedSizeRowMajorMatrixIndexingPolicy<us, 2, 3, 5>;
+    using M22 = FixedSizeRowMajorMatrixIndexingPolicy<us, 2, 2>;
+    dump_compat<V2, V3>(); dump_compat<V3, V2>(); dump_compat<V3, V3s>(); dump_compat<V3s, V3>(); dump_compat<V3, V3>();
+    dump_compat<M23, M32>(); dump_compat<M32, M23>(); dump_compat<M23, M23s>(); dump_compat<M23, M22>();
+    dump_compat<M22, M23>(); dump_compat<M23, V3>(); dump_compat<V2, M22>(); dump_compat<M32, M22>(); dump_compat<M22, M32>();
+    for (std::size_t a = 1; a <= 3; ++a)
+      for (std::size_t b = 1; b <= 3; ++b) {
+        std::cout << "rcompat V " << a << " 1 | V " << b << " 1 = "
+                  << (areIndexingPoliciesCompatibleAtRunTime(RuntimeVectorIndexingPolicy(a), RuntimeVectorIndexingPolicy(b)) ? 1 : 0) << "\n";
+        std::cout << "rcompat V " << a << " 1 | V 3 1 = "
+                  << (areIndexingPoliciesCompatibleAtRunTime(RuntimeVectorIndexingPolicy(a), V3()) ? 1 : 0) << "\n";
+        std::cout << "rcompat V 2 1 | V " << b << " 1 = "
+                  << (areIndexingPoliciesCompatibleAtRunTime(V2(), RuntimeVectorIndexingPolicy(b)) ? 1 : 0) << "\n";
+      }
+  }
+  {
+    // clamp (ArrayCommonMethods.ixx): every component becomes min(max(x, lo), hi); cells outside a view are kept
+    const int vals[8] = {-7, -2, 0, 3, 5, 8, 11, 4};
+    tvector<8, int> v;
+    for (us i = 0; i != 8; ++i) v[i] = vals[i];
+    v.clamp(-2, 5);
+    for (us i = 0; i != 8; ++i) std::cout << "clamp -2 5 " << vals[i] << " = " << v[i] << "\n";
+    tmatrix<2, 3, int> m;
+    for (us i = 0; i != 2; ++i)
+      for (us j = 0; j != 3; ++j) m(i, j) = vals[3 * i + j + 1];
+    m.clamp(0, 8);
+    for (us i = 0; i != 2; ++i)
+      for (us j = 0; j != 3; ++j) std::cout << "clamp 0 8 " << vals[3 * i + j + 1] << " = " << m(i, j) << "\n";
+    int buf[8];
+    for (us i = 0; i != 8; ++i) buf[i] = vals[i];
+    auto a = map<tvector<3, int>, FixedSizeVectorIndexingPolicy<us, 3, 3>>(buf + 1);
+    a.clamp(1, 4);
+    for (us i = 0; i != 8; ++i)
+      std::cout << (i % 3 == 1 ? "clamp 1 4 " : "keep ") << vals[i] << " = " << buf[i] << "\n";
   }
   dump_coalesced<tvector<4, int>, typename tvector<4, int>::indexing_policy>();
   dump_coalesced<stensor<2, int>, typename stensor<2, int>::indexing_policy>();
